@@ -8,6 +8,7 @@ Cryptographic strength (ChaCha20-Poly1305, scrypt) is assumed: a token verifies 
 was sealed under that key (term equality), hashes are equal iff their inputs are.
 -/
 import KrillModel.Http.AuthLemmas
+import KrillModel.Http.AuthPinned
 import KrillModel.Http.Lemmas
 import KrillModel.Props.C13
 namespace KM.Props.C20
@@ -233,13 +234,13 @@ theorem issued_genuine_step (norm : String → String) (cfg : Config) (st : Sess
     simp only [step]
     rcases login_state norm cfg st b with ⟨id, role, tok, hok, hst, _⟩ | ⟨_, hst⟩
     · rw [hst]
-      obtain ⟨raw, pw, e, u, r, _, _, _, hid, hu, hrole, hr, hal, _⟩ :=
+      obtain ⟨raw, pw, u, r, _, hid, hu, _, hrole, hr, hal, _⟩ :=
         (login_ok_iff norm cfg st b id role tok).mp hok
       intro w hw
       simp only [encode, List.mem_cons] at hw ⊢
       rcases hw with rfl | hw
-      · subst hid hrole
-        exact ⟨st.nonce, norm raw, u, r, Nat.lt_succ_self _, rfl, hu, hr, hal⟩
+      · subst hrole
+        exact ⟨st.nonce, id, u, r, Nat.lt_succ_self _, rfl, hu, hr, hal⟩
       · obtain ⟨n, u', e', r', hn, rest⟩ := hi w hw
         exact ⟨n, u', e', r', Nat.lt_succ_of_lt hn, rest⟩
     · rw [hst]; exact hi
@@ -382,54 +383,38 @@ theorem mutated_token_refused_everywhere (cfg : Config) (hcf : cfg.authType = .c
 
 /-! ## `login_iff` -/
 
-/-- **Login succeeds exactly when** the name *as sent* is a configured user whose stored hash is the
-hash of the (trimmed, normalised) password under the (trimmed, normalised) name and that entry's
-salt, the *normalised* name is a configured user too, and the role of the latter allows `login`;
-the identity logged in is the normalised name with the role configured for it, and the token is a
-fresh session sealed under this instance's key.  (As the code is: two look-ups.) -/
+/-- **Login succeeds exactly when** the trimmed and normalised name is a configured user, the stored
+hash of that user is the hash of the (trimmed, normalised) password under that name and that user's
+salt, and that user's role allows `login`; the identity logged in is that user with the role
+configured for it, and the token is a fresh session sealed under this instance's key. -/
 theorem login_iff (norm : String → String) (cfg : Config) (st : SessState)
     (basic : Option (String × String)) (id role : String) (tok : Wire) :
     (loginConfigFile norm cfg st basic).1 = .ok id role tok ↔
-      ∃ raw pw e u r, basic = some (raw, pw) ∧ cfg.users.lookup raw = some e ∧
-        e.hash = ⟨norm pw, norm raw, e.salt⟩ ∧ id = norm raw ∧
-        cfg.users.lookup (norm raw) = some u ∧ role = u.role ∧
+      ∃ raw pw u r, basic = some (raw, pw) ∧ id = norm raw ∧
+        cfg.users.lookup id = some u ∧ u.hash = ⟨norm pw, id, u.salt⟩ ∧ role = u.role ∧
         cfg.roles.lookup u.role = some r ∧ r.isAllowed .Login none = true ∧
         tok = .sealed true cfg.key st.nonce (.session id role) :=
   login_ok_iff norm cfg st basic id role tok
 
-/-- Distinct configured names stay distinct under trimming and normalisation, and normalisation is
-idempotent. -/
-def NamesSeparated (norm : String → String) (cfg : Config) : Prop :=
-  (∀ a, norm (norm a) = norm a) ∧
-  ∀ a b ea eb, cfg.users.lookup a = some ea → cfg.users.lookup b = some eb → norm a = norm b → a = b
-
-/-
-FULL STATEMENT (false of the code in general, see `login_confuses_equivalent_names`):
-  login succeeds only for a configured user with *that user's* matching password, as that user:
-  `(loginConfigFile norm cfg st (some (raw, pw))).1 = .ok id role tok →
-     ∃ e, cfg.users.lookup id = some e ∧ e.hash = ⟨norm pw, id, e.salt⟩ ∧ role = e.role`.
-What is missing: the hash is taken from the entry of the name as sent, the identity from the entry
-of the normalised name; when both exist and differ, the password of the first logs in the second.
-Proved under `NamesSeparated` (no two configured names are equal up to trimming/NFKC).
--/
-theorem login_identity_partial (norm : String → String) (cfg : Config)
-    (hsep : NamesSeparated norm cfg) (st : SessState) (raw pw id role : String) (tok : Wire)
+/-- **Login identity, full strength** (no hypothesis on the configuration): whoever logs in is a
+configured user whose *own* stored hash matches the password sent, and gets that user's role.  In
+particular the password of one configured user never logs in as another one, however their names
+are related by case, white space or Unicode normalisation. -/
+theorem login_identity (norm : String → String) (cfg : Config) (st : SessState)
+    (raw pw id role : String) (tok : Wire)
     (h : (loginConfigFile norm cfg st (some (raw, pw))).1 = .ok id role tok) :
     ∃ e, cfg.users.lookup id = some e ∧ e.hash = ⟨norm pw, id, e.salt⟩ ∧ role = e.role := by
-  obtain ⟨raw', pw', e, u, r, hb, he, hh, hid, hu, hrole, _, _, _⟩ :=
+  obtain ⟨raw', pw', u, r, hb, _, hu, hh, hrole, _, _, _⟩ :=
     (login_iff norm cfg st _ id role tok).mp h
   simp only [Option.some.injEq, Prod.mk.injEq] at hb
   obtain ⟨rfl, rfl⟩ := hb
-  have hraw : raw = norm raw := hsep.2 raw (norm raw) e u he hu (hsep.1 raw).symm
-  rw [← hraw] at hu hid
-  rw [he] at hu
-  simp only [Option.some.injEq] at hu
-  subst hu hid
-  exact ⟨e, he, by rw [← hraw] at hh; exact hh, hrole⟩
+  exact ⟨u, hu, hh, hrole⟩
 
-/-- The negation of the full statement, with a concrete configuration: two configured users whose
-names are equal after normalisation (`"Ａlice"`, full-width A, and `"Alice"`).  The password of the
-first logs in as the second, with the second's role. -/
+/-- What the pinned tree did (finding F-C20-1, fixed by 2ee45739) – a statement about the
+counter-model `Pinned.loginTwoLookups`, **not** about the model of the current code: with two
+configured users whose names are equal after normalisation (`"Ａlice"`, full-width A, and `"Alice"`)
+the password of the first logged in as the second, with the second's role – `login_identity` was
+false.  The current model refuses the same login. -/
 theorem login_confuses_equivalent_names :
     let norm : String → String := fun s => if s = "Ａlice" then "Alice" else s
     let ro : Role := Role.simple [.Login]
@@ -439,9 +424,12 @@ theorem login_confuses_equivalent_names :
         users := [("Ａlice", ⟨⟨"pw-of-wide-alice", "Alice", 1⟩, 1, "ro"⟩),
                   ("Alice", ⟨⟨"pw-of-alice", "Alice", 2⟩, 2, "adm"⟩)],
         roles := [("ro", ro), ("adm", adm)], unixUsers := [], key := 7, testbed := false }
-    (loginConfigFile norm cfg {} (some ("Ａlice", "pw-of-wide-alice"))).1 =
+    (Pinned.loginTwoLookups norm cfg {} (some ("Ａlice", "pw-of-wide-alice"))).1 =
       .ok "Alice" "adm" (.sealed true 7 0 (.session "Alice" "adm")) ∧
-    ¬ ∃ e, cfg.users.lookup "Alice" = some e ∧ e.hash = ⟨"pw-of-wide-alice", "Alice", e.salt⟩ := by
+    (¬ ∃ e, cfg.users.lookup "Alice" = some e ∧ e.hash = ⟨"pw-of-wide-alice", "Alice", e.salt⟩) ∧
+    (loginConfigFile norm cfg {} (some ("Ａlice", "pw-of-wide-alice"))).1 = .invalid ∧
+    (loginConfigFile norm cfg {} (some ("Ａlice", "pw-of-alice"))).1 =
+      .ok "Alice" "adm" (.sealed true 7 0 (.session "Alice" "adm")) := by
   decide
 
 /-- Login is refused with 403 exactly when everything matches but the role lacks `login`; with 401
@@ -449,8 +437,8 @@ in every other case. -/
 theorem login_denied_iff (norm : String → String) (cfg : Config) (st : SessState)
     (basic : Option (String × String)) :
     (loginConfigFile norm cfg st basic).1 = .denied ↔
-      ∃ raw pw e u r, basic = some (raw, pw) ∧ cfg.users.lookup raw = some e ∧
-        e.hash = ⟨norm pw, norm raw, e.salt⟩ ∧ cfg.users.lookup (norm raw) = some u ∧
+      ∃ raw pw u r, basic = some (raw, pw) ∧ cfg.users.lookup (norm raw) = some u ∧
+        u.hash = ⟨norm pw, norm raw, u.salt⟩ ∧
         cfg.roles.lookup u.role = some r ∧ r.isAllowed .Login none = false := by
   constructor
   · intro h
@@ -458,27 +446,24 @@ theorem login_denied_iff (norm : String → String) (cfg : Config) (st : SessSta
     split at h
     · cases h
     · rename_i raw pw
+      dsimp only at h
       split at h
       · cases h
-      · rename_i e he
-        dsimp only at h
+      · rename_i u hu
         split at h
         · cases h
         · rename_i hh
           split at h
           · cases h
-          · rename_i u hu
+          · rename_i r hr
             split at h
-            · cases h
-            · rename_i r hr
-              split at h
-              · rename_i hal
-                refine ⟨raw, pw, e, u, r, rfl, he, ?_, hu, hr, by simpa using hal⟩
-                simpa [eq_comm] using hh
-              · simp [encode] at h
-  · intro ⟨raw, pw, e, u, r, hb, he, hh, hu, hr, hal⟩
+            · rename_i hal
+              refine ⟨raw, pw, u, r, rfl, hu, ?_, hr, by simpa using hal⟩
+              simpa [eq_comm] using hh
+            · simp [encode] at h
+  · intro ⟨raw, pw, u, r, hb, hu, hh, hr, hal⟩
     subst hb
-    simp [loginConfigFile, he, ← hh, hu, hr, hal]
+    simp [loginConfigFile, hu, ← hh, hr, hal]
 
 /-! ## `actor_is_identity` -/
 
@@ -541,13 +526,11 @@ example :
     (loginConfigFile id exCfg st0 none).1 = .invalid := by
   decide
 
-/-- `NamesSeparated` holds for ordinary configurations (here with the identity as normalisation),
-so `login_identity_partial` is not vacuous; and `Unforgeable` holds for an issued token. -/
-example : NamesSeparated id exCfg ∧
+/-- `Unforgeable` holds for an issued token (its hypothesis in `session_identity_is_configured` is
+satisfiable). -/
+example :
     Unforgeable exCfg (run id exCfg [.login (some ("alice", "pw"))])
       (.sealed true 7 0 (.session "alice" "r1")) := by
-  refine ⟨⟨fun _ => rfl, ?_⟩, ?_⟩
-  · intro a b ea eb _ _ h; exact h
-  · intro n pt _; decide
+  intro n pt _; decide
 
 end KM.Props.C20
